@@ -81,6 +81,10 @@ func g0Sentences(tier string) []sentence {
 			sentence{"ParseDDL", fmt.Sprintf("CREATE INDEX i ON t (%s)", n)},
 			sentence{"ParseDML", fmt.Sprintf("INSERT INTO t (%s) VALUES (1)", n)},
 			sentence{"ParseDML", fmt.Sprintf("UPDATE t SET %s = 1 WHERE true", n)},
+			sentence{"ParseDML", fmt.Sprintf("DELETE FROM t WHERE true THEN RETURN %s, t.%s", n, n)},
+			sentence{"ParseDML", fmt.Sprintf("DELETE FROM t WHERE true THEN RETURN WITH ACTION %s", n)},
+			sentence{"ParseDML", fmt.Sprintf("UPDATE t SET a = 1 WHERE true THEN RETURN WITH ACTION AS %s *, %s AS b", n, n)},
+			sentence{"ParseDML", fmt.Sprintf("INSERT INTO t (a) VALUES (1) THEN RETURN WITH ACTION t.*, %s", n)},
 		)
 	}
 	return out
